@@ -147,6 +147,18 @@ def _average_case(case):
                 return result(viol("C10/average/equivariance", f"G={case['G']} g={np.asarray(g).tolist()} block {t}: relative defect {df:.3g} ({case['in_sig']}->{case['out_sig']}, shape {shape})"), True, key, labels, evals)
         if tuple(lhs_mi.is_torus) != tor_g:
             return result(viol("C10/average/flags", f"flags {lhs_mi.is_torus} expected {tor_g}"), True, key, labels, evals)
+    # definition of the wrapper (anchor: "mean over g of g^T . model(g . x)"), evaluated independently for small groups
+    if len(G) <= 8:
+        acc = {t: 0.0 for t in base}
+        for g in G:
+            il, _ = run(inner, {t: ref.action(d, a, t[1], g, lead=1) for t, a in X.items()}, ref.transport(tor, g))
+            for t in base:
+                acc[t] = acc[t] + ref.action(d, il[t].astype(np.float64), t[1], np.asarray(g).T, lead=1)
+        for t in base:
+            df = rel_defect(base[t], acc[t] / len(G))
+            if df > 1e-4:
+                return result(viol("C10/average/definition", f"G={case['G']} (|G|={len(G)}): wrapper output differs from (1/|G|) sum_g g^-1.inner(g.x) on block {t} by {df:.3g}"), True, key, labels, evals)
+        labels.append("definition_checked")
     labels.append("inner_nonequivariant" if inner_defect > 0.1 else "inner_nearly_equivariant")
     return result(None, inner_defect > 0.1 and len(G) > 1, key, labels, evals)
 
